@@ -3,6 +3,9 @@
 package vm
 
 import (
+	"io"
+
+	"github.com/elk-language/elk/bitfield"
 	"github.com/elk-language/elk/bytecode"
 	"github.com/elk-language/elk/value"
 )
@@ -33,4 +36,33 @@ func VX_C29_runloop_probe() {
 	fn := &BytecodeFunction{Instructions: []byte{byte(bytecode.GET_LOCAL_1), byte(bytecode.RETURN)}}
 	got, err := VXExec(fn, []value.Value{value.Nil, value.SmallInt(x).ToValue()}, 2, nil)
 	vxAssert(err.IsUndefined() && got.IsSmallInt() && int64(got.AsSmallInt()) == x, "probe/get-local-1")
+}
+
+// the disassembler reads a CLOSURE instruction the way the compiler writes it and the run loop
+// reads it: one flags byte and an 8 or 16 bit index per upvalue (every index, so also index bytes
+// equal to the terminator byte 0xFF), then the terminator. It reports no error and the offset of
+// the following instruction.
+func VX_C29_disassemble_closure() {
+	n := 1 + vxSplit("upvalues", 2)
+	code := []byte{byte(bytecode.CLOSURE)}
+	for k := 0; k < n; k++ {
+		name := string(rune('0' + k))
+		var flags bitfield.BitField8
+		if vxChoose("local"+name, 2) == 1 { // one path per flag value: the flags byte stays concrete
+			flags.SetFlag(UpvalueLocalFlag)
+		}
+		idx := vxUint16("idx" + name)
+		if idx > 255 {
+			flags.SetFlag(UpvalueLongIndexFlag)
+			code = append(code, flags.Byte(), byte(idx>>8), byte(idx))
+		} else {
+			code = append(code, flags.Byte(), byte(idx))
+		}
+	}
+	code = append(code, ClosureTerminatorFlag, byte(bytecode.RETURN))
+	fn := NewBytecodeFunctionSimple(value.ToSymbol("h"), code, nil)
+	next, err := fn.DisassembleInstruction(io.Discard, 0)
+	vxAssert(err == nil, "disassemble-closure/no-error")
+	vxAssert(next == len(code)-1, "disassemble-closure/next-instruction-follows-the-terminator")
+	vxAssert(fn.Disassemble(io.Discard) == nil, "disassemble-closure/whole-function-disassembles")
 }
